@@ -201,6 +201,9 @@ func readListCmd(dec *imapwire.Decoder) (ref string, patterns []string, options 
 func readListMailbox(dec *imapwire.Decoder) (string, error) {
 	var mailbox string
 	if !dec.String(&mailbox) {
+		if err := dec.Err(); err != nil {
+			return "", err // e.g. a refused literal
+		}
 		if !dec.Expect(dec.Func(&mailbox, isListChar), "list-char") {
 			return "", dec.Err()
 		}
